@@ -3,6 +3,7 @@ package interp
 import (
 	"fmt"
 	"go/types"
+	"golang.org/x/tools/go/ssa"
 	"sort"
 	"strings"
 	"time"
@@ -21,9 +22,10 @@ const (
 	dkSched
 	dkKnown
 	dkOther
+	dkQuery
 )
 
-var dkNames = [...]string{"branch", "mapkey", "concretize", "choose", "assume", "assert", "sched", "known", "other"}
+var dkNames = [...]string{"branch", "mapkey", "concretize", "choose", "assume", "assert", "sched", "known", "other", "query"}
 
 // Decision is one solver-decided (or harness-chosen) outcome on a path. The vector of
 // decisions identifies the path; re-executing with the vector as a prefix needs no solver.
@@ -66,6 +68,7 @@ type PathResult struct {
 	Intrinsics  map[string]bool
 	NewQueries  int
 	MaxLoop     int
+	ForkSites   map[string]int
 }
 
 // Observation is a harness-declared observable, used to validate engine paths natively.
@@ -119,13 +122,15 @@ type Run struct {
 
 	stubState map[string]interface{}
 
-	killed    bool
-	schedN    int
-	local     *localCtx
-	lastFn    string
-	threadErr interface{}
-	syncVC    map[interface{}]*[]int
-	accs      map[*Agg]*[]accessRec
+	killed      bool
+	noFork      int
+	noIntrinsic *ssa.Function
+	schedN      int
+	local       *localCtx
+	lastFn      string
+	threadErr   interface{}
+	syncVC      map[interface{}]*[]int
+	accs        map[*Agg]*[]accessRec
 }
 
 func (r *Run) newID() int {
@@ -141,6 +146,7 @@ func (r *Run) tracef(format string, args ...interface{}) {
 
 // addFact records an asserted literal (and its negation) for solver-free answers later.
 func (r *Run) addFact(c *smt.Term) {
+	r.harvestRange(c, true)
 	switch c.Op {
 	case smt.OpNot:
 		r.facts[c.A[0]] = false
@@ -151,6 +157,54 @@ func (r *Run) addFact(c *smt.Term) {
 		return
 	default:
 		r.facts[c] = true
+	}
+}
+
+// harvestRange turns an asserted comparison of a variable with a constant into an interval fact.
+func (r *Run) harvestRange(c *smt.Term, pos bool) {
+	switch c.Op {
+	case smt.OpNot:
+		r.harvestRange(c.A[0], !pos)
+	case smt.OpAnd:
+		if pos {
+			r.harvestRange(c.A[0], true)
+			r.harvestRange(c.A[1], true)
+		}
+	case smt.OpOr:
+		if !pos {
+			r.harvestRange(c.A[0], false)
+			r.harvestRange(c.A[1], false)
+		}
+	case smt.OpUlt:
+		x, y := c.A[0], c.A[1]
+		isVar := func(t *smt.Term) bool { return t.Op == smt.OpVar || (t.Op == smt.OpZExt && t.A[0].Op == smt.OpVar) }
+		switch {
+		case isVar(x) && y.IsConst():
+			if pos { // x < k
+				if y.K > 0 {
+					r.B.Narrow(x, 0, y.K-1)
+				}
+			} else { // x >= k
+				r.B.Narrow(x, y.K, ^uint64(0))
+			}
+		case x.IsConst() && isVar(y):
+			if pos { // k < y
+				r.B.Narrow(y, x.K+1, ^uint64(0))
+			} else { // y <= k
+				r.B.Narrow(y, 0, x.K)
+			}
+		}
+	case smt.OpEq:
+		if !pos {
+			return
+		}
+		x, y := c.A[0], c.A[1]
+		if x.IsConst() {
+			x, y = y, x
+		}
+		if y.IsConst() && (x.Op == smt.OpVar || (x.Op == smt.OpZExt && x.A[0].Op == smt.OpVar)) {
+			r.B.Narrow(x, y.K, y.K)
+		}
 	}
 }
 
@@ -248,6 +302,9 @@ func (r *Run) decide(kind uint8, alts []*smt.Term) int {
 		}
 		return 1
 	}
+	if r.noFork > 0 {
+		panic(imprecise{"rendering the text would need a fork"})
+	}
 	i := len(r.taken)
 	if i < len(r.prefix) {
 		d := r.prefix[i]
@@ -280,6 +337,9 @@ func (r *Run) decide(kind uint8, alts []*smt.Term) int {
 	}
 	if len(feas) == 0 {
 		panic(abort{abInfeasible, "no feasible alternative"})
+	}
+	if len(feas) > 1 {
+		r.res.ForkSites[r.lastFn] += len(feas) - 1
 	}
 	for _, j := range feas[1:] {
 		np := make([]Decision, len(r.taken)+1)
@@ -397,11 +457,15 @@ func (r *Run) concretize(t *smt.Term, why string) uint64 {
 		panic(abort{abInconclusive, "concretize: solver unknown (" + why + ")"})
 	}
 	v := m[tmp.Name]
-	ne := append(append([]uint64(nil), excl...), v)
-	np := make([]Decision, len(r.taken)+1)
-	copy(np, r.taken)
-	np[len(r.taken)] = Decision{Kind: dkConcretize, N: 2, Alt: 1, Excl: ne}
-	r.E.push(np)
+	// is there any other value? if not, no fork is needed
+	other, _ := r.check(nil, r.B.Ne(t, smt.Const(t.W, v)))
+	if other != smt.Unsat {
+		ne := append(append([]uint64(nil), excl...), v)
+		np := make([]Decision, len(r.taken)+1)
+		copy(np, r.taken)
+		np[len(r.taken)] = Decision{Kind: dkConcretize, N: 2, Alt: 1, Excl: ne}
+		r.E.push(np)
+	}
 	r.taken = append(r.taken, Decision{Kind: dkConcretize, N: 2, Alt: 0, Val: v})
 	r.assumeRaw(r.B.Eq(t, smt.Const(t.W, v)))
 	return v
